@@ -22,4 +22,29 @@ META = {
         note="Trusted: the naive prefix-count oracle in c01, the Go toolchain, rapid. Bitmaps beyond 70 001 words / ranks beyond int32 are not explored.",
         technique="property-based differential testing vs naive bit count + exhaustive small grid + coverage-guided fuzzing",
         design_ref="DESIGN.md 4/C01"),
+    "C02": dict(
+        text="Differential testing of Select32/Select32R64 and both index builders against the naive list of 1-positions, for every valid i on bitmaps up to 4096 ones (sampled i above), with the rank(select(i)) = i composition; complete grid over every byte value at every byte position (thorough: every 16-bit pattern) so every reachable select8Lookup entry and every halving outcome is executed through the public API.",
+        note="Trusted: naive scan oracle, toolchain, rapid. i outside [0,n) is not queried (undefined by the statement).",
+        technique="property-based differential testing vs naive scan + exhaustive byte/16-bit pattern grid + coverage-guided fuzzing",
+        design_ref="DESIGN.md 4/C02"),
+    "C03": dict(
+        text="PathToIndexLoose/PathToIndex compared with the recursive pre-order definition (two independent oracles: arithmetic walk and literal recursion) on generated (mask, node) pairs of every height 0..30 and exhaustively on all masks of height <= 9 (thorough <= 12; debug <= 11) x all nodes, which gives the order-preserving bijection outright on that sub-domain; everything is run twice, in the release build and with -tags debug where any contract panic on these valid inputs is a failure.",
+        note="Trusted: model.Tree (self-tested: the two oracles agree on all masks of height <= 10), toolchain, rapid. Heights above the grid bound are sampled, not enumerated.",
+        technique="property-based differential testing vs recursive definition, exhaustive small-height grid, two build configurations",
+        design_ref="DESIGN.md 4/C03"),
+    "C04": dict(
+        text="AllPaths compared for exact slice equality with an enumerate-filter-sort oracle over generated masks (height 0..30) and (from,to) pairs on and off real paths, exhaustively for all masks of height <= 5 (thorough <= 7) x all (from,to) drawn from every path and every path+-1; Decode compared with a pre-order walk using its own index on bitmaps of every shape (short, long, garbage beyond bitmapSize), exhaustively for height <= 3, plus the encode-through-PathToIndex round trip.",
+        note="Trusted: oracle enumeration in c04 and model.Tree; ranges are generated with a bounded scanned span (the function is linear in it).",
+        technique="property-based differential testing (exact sequence equality) + exhaustive small grid + round trip + coverage-guided fuzzing",
+        design_ref="DESIGN.md 4/C04"),
+    "C05": dict(
+        text="The whole domain is finite (2^32-33 (height,index) pairs) and the thorough tier enumerates it completely with an explicit pre-order walk whose visit counter is the index, checking IndexToPath and the PathToIndex inverse at every node; the quick tier enumerates heights 0..22 completely and samples heights 23..30 at boundary-heavy indexes against an independent inverse.",
+        note="Trusted: the iterative walk (cross-checked against model.Tree.Index at every subtree root and in the sampled cases), toolchain. Quick is exhaustive only up to height 22.",
+        technique="exhaustive enumeration of the finite domain (thorough) / partial enumeration + property-based sampling (quick) against a pre-order walk oracle",
+        design_ref="DESIGN.md 4/C05"),
+    "C10": dict(
+        text="NewPath/PathLen/PathHeight/PathBits/PathMask/PathStr compared with a constructive definition for every (h<=16,l,prefix) and for generated nodes up to height 32; the order claim is decided for all pairs of heights <= 16 by checking that the pre-order walk of the full tree yields strictly increasing words, for all pairs explicitly at heights <= 6, and for generated correlated pairs up to height 32 against a pre-order comparator.",
+        note="Trusted: model.PathWord / PreorderLess / Walk (self-tested against each other), toolchain, rapid.",
+        technique="exhaustive small-height grid + property-based differential testing vs constructive definition and pre-order comparator",
+        design_ref="DESIGN.md 4/C10"),
 }
